@@ -975,7 +975,10 @@ PROPS = {
                        "tag invariant (letters and digits, at most 255 octets: the safety condition of the unchecked constructors; this contract exposed D59), "
                        "Caa::parse accepts exactly a flags octet, a tag and any value, consumes all of the record data and returns a value whose wire form "
                        "(flags | length-prefixed tag | value) is the octets read; rdlen() is the length of what compose_rdata() and compose_canonical_rdata() append "
-                       "(on values within the 65 535 limit, which the infallible constructor does not enforce: D40).",
+                       "(on values within the 65 535 limit, which the infallible constructor does not enforce: D40). NSEC (unit rdnames, rdata/dnssec.rs, real text of Nsec::{new, next_name, set_next_name, types, rdlen, "
+                       "compose_rdata, compose_canonical_rdata, parse}): the RDATA is the next name as stored, never compressed, followed by the bitmap; the canonical form is the same octets (RFC 6840 5.1 took NSEC off the "
+                       "list of types whose names are lower-cased; seed C05-16 fails this postcondition); rdlen is its length with and without compression; parse reads a name and takes all that follows as the bitmap "
+                       "(whose own format is under contract in unit rtypebitmap).",
         "assumptions": [
             "AsRefOctets models the bound AsRef<[u8]>: an octets value has one fixed content returned by every as_ref() call",
             "Rtype (int_enum! macro) is modelled as a 16-bit code with from_int/to_int",
